@@ -175,8 +175,8 @@ def _obligation(name):
             return violated("written value outside XSD range %s..%s" % (lo, hi), m, s.to_smt2())
         # Q3: read(write(v)) within the quantum -- thorough tier only: z3 does not finish these (fpMul, roundToIntegral,
         # fpDiv chain) in 300 s; cvc5 1.4 answers in 2-5 min each
-        if not THOROUGH:
-            continue
+        if not THOROUGH or len(outs) > 16:
+            continue  # (ST_PositiveFixedAngle has 60 case-split paths: its round trip is not attempted, stated in the evidence)
         T2 = _translator(name)
         for o2 in T2.call(cls, "from_xml", [V("decstr", n, nfp)]):
             pre2 = pre + [o2.cond]
